@@ -278,6 +278,24 @@ func moduleScenarios(m modDef, quick bool) []*scenario {
 				Actors: []actor{{Name: "GetRulesOfResource(a)", Run: func() string { return m.getRes("a") }}, wa}})
 		}
 	}
+	// a's list shrinks while a kept rule is NOT the last of the old list: rebuilding must not disturb the
+	// list that requests in flight are iterating (old [ao,ap] and new [ao] both block through ao)
+	setupTwo := func() {
+		env.ResetAll(env.DefaultGeometry, 1700000000000)
+		m.load("ao", "ap", "bo")
+		if m.afterLoad != nil {
+			m.afterLoad()
+		}
+	}
+	for _, w := range []wr{
+		{"LoadRulesOfResource(a,[ao]) over [ao,ap]", func() { m.loadRes("a", "ao") }, []string{"blocked-by:ao"}},
+		{"LoadRules([ao,bo]) over [ao,ap,bo]", func() { m.load("ao", "bo") }, []string{"blocked-by:ao"}},
+		{"LoadRulesOfResource(a,[ap]) over [ao,ap]", func() { m.loadRes("a", "ap") }, []string{"blocked-by:ao", "pass"}},
+	} {
+		w := w
+		out = append(out, &scenario{Name: m.name + ": traffic(a) || " + w.name, Setup: setupTwo,
+			Actors: []actor{{Name: "traffic(a)", Run: traffic("a", true, m.trafficOp...), Allowed: w.allowed}, {Name: w.name, Run: func() string { w.run(); return "" }}}})
+	}
 	if !quick {
 		for _, w := range writers[:2] {
 			w := w
